@@ -15,6 +15,7 @@ mod c14;
 mod c15;
 mod c16;
 mod c17;
+mod c18;
 mod c19;
 mod core;
 mod auto;
@@ -45,6 +46,7 @@ fn main() {
         "c15" => c15::run(&args),
         "c16" => c16::run(&args),
         "c17" => c17::run(&args),
+        "c18" => c18::run(&args),
         "c19" => c19::run(&args),
         "rxprobe" => {
             // vp rxprobe <pattern> <escaped haystack>: what the regex engines say
